@@ -41,7 +41,7 @@ def run(eng: Engine, ck: Check):
     src = unparse(gst.node)
     loops = [n for n in walk_local(gst.node) if isinstance(n, ast.For) and '_UNPICKABLE_FIELDS' in unparse(n.iter)]
     dels = [n for n in walk_local(gst.node) if isinstance(n, ast.Delete)]
-    ok = 'self.__dict__.copy()' in src and len(loops) == 1 and len(dels) == 1 and any(a is loops[0] for a in ancestors(dels[0]))
+    ok = (phas(gst.node, 'self.__dict__.copy()') or phas(gst.node, 'dict(self.__dict__)')) and len(loops) == 1 and len(dels) == 1 and any(a is loops[0] for a in ancestors(dels[0]))
     ck.ob('R-C17-FIELDS', gst, gst.node, '__getstate__ persists a copy of every attribute except the unpickable ones', ok, '', construct='getstate copies all but unpickable')
     sv = [n for n in walk_local(gst.node) if isinstance(n, ast.Assign) and "['state']" in unparse(n.targets[0])]
     ok = len(sv) == 1 and unparse(sv[0].value).endswith("['state'].VALUE")
@@ -63,10 +63,11 @@ def run(eng: Engine, ck: Check):
     ck.ob('R-C17-FIELDS', sst, sst.node, 'the run-time-only fields are re-created after the stored dict was applied (a stale stored value cannot win)', ok, '',
           construct='setstate order')
     ifs = [x for x in calls_in(sst.node) if call_name(x) == 'init_from_state']
-    ok = len(ifs) == 1 and "obj_state['state']" in unparse(ifs[0].args[0]) and unparse(ifs[0].args[1]) == 'self'
+    OBJ = [p_ for p_ in sst.params if p_ != 'self'][0]
+    ok = len(ifs) == 1 and len(ifs[0].args) >= 2 and phas(ifs[0].args[0], f"{OBJ}['state']") and unparse(ifs[0].args[1]) == 'self'
     ck.ob('R-C17-FIELDS', sst, sst.node, '__setstate__ maps the stored enum back to a state object bound to this transfer', ok, '', construct='setstate state object')
     for n in walk_local(sst.node):
-        if isinstance(n, ast.Assign) and isinstance(n.targets[0], ast.Subscript) and unparse(n.targets[0].value) == 'obj_state':
+        if isinstance(n, ast.Assign) and isinstance(n.targets[0], ast.Subscript) and unparse(n.targets[0].value) == [p_ for p_ in sst.params if p_ != 'self'][0]:
             k = const(n.targets[0].slice)
             if k != 'state':
                 ck.ob('R-C17-FIELDS', sst, n, f'legacy default for `{k}` names a real attribute', k in attrs, f'{k} is not an attribute of Transfer', construct=f'legacy default {k}')
@@ -147,7 +148,9 @@ def run(eng: Engine, ck: Check):
                 tr = enum_members_in(a[2])
         ck.ob('R-C17-REPAIR', it, it.node, 'is_transferring() = DOWNLOADING or UPLOADING', tr == {'DOWNLOADING', 'UPLOADING'}, f'{sorted(tr)}', construct='is_transferring states')
         # transferring -> COMPLETE iff is_transfered else INCOMPLETE
-        assigns = [(n, enum_member(n.value)) for n in walk_local(lp) if isinstance(n, ast.Assign) and unparse(n.targets[0]) == 'state' and enum_member(n.value)]
+        inst = [x for x in calls_in(lp) if call_name(x) == 'init_from_state' and len(x.args) >= 2]
+        SV = unparse(inst[0].args[0]) if len(inst) == 1 else 'state'
+        assigns = [(n, enum_member(n.value)) for n in walk_local(lp) if isinstance(n, ast.Assign) and unparse(n.targets[0]) == SV and enum_member(n.value)]
         row = {}
         for n, mem in assigns:
             for e, pol, _ in eng.guards_at(rc, n):
@@ -156,7 +159,8 @@ def run(eng: Engine, ck: Check):
         ck.ob('R-C17-REPAIR', rc, lp, 'a transfer caught transferring becomes COMPLETE iff all bytes had arrived, else INCOMPLETE', row == {True: 'COMPLETE', False: 'INCOMPLETE'},
               f'{row}', construct='repair transferring')
         st_store = [s for f, s, v in eng.stores_to_attr('state', [rc])]
-        ok = len(st_store) == 1 and 'init_from_state(state, transfer)' in unparse(st_store[0].value) and \
+        ok = len(st_store) == 1 and len(inst) == 1 and inst[0] in list(ast.walk(st_store[0].value)) and unparse(inst[0].args[1]) == tv and \
+            isinstance(st_store[0].targets[0], ast.Attribute) and unparse(st_store[0].targets[0].value) == tv and \
             any(pol and call_name(e) == 'is_transferring' for e, pol, _ in eng.guards_at(rc, st_store[0]))
         ck.ob('R-C17-REPAIR', rc, lp, 'the repaired state object is installed on the transfer', ok, '', construct='repair installs state')
     # repairs that go through the state machine must be defined for EVERY state the guard admits (an undefined operation is a silent refusal)
@@ -179,8 +183,8 @@ def run(eng: Engine, ck: Check):
                   construct=f'repair op {x.func.attr} defined for admitted states')
     ad = eng.func(TM, 'TransferManager.add')
     ck.visited(ad)
-    src = unparse(ad.node)
-    ok = 'transfer.state_listeners.append(self)' in src and 'self._transfers.append(transfer)' in src and 'request_management_cycle' in src
+    TP = [p_ for p_ in ad.params if p_ != 'self'][0]
+    ok = phas(ad.node, f'{TP}.state_listeners.append(self)') and phas(ad.node, f'self._transfers.append({TP})') and bool(calls_on(ad.node, 'request_management_cycle'))
     ck.ob('R-C17-REPAIR', ad, ad.node, 'add() subscribes the manager to state changes, stores the transfer and requests a cycle', ok, '', construct='add registers')
     dup = [n for n in walk_local(ad.node) if isinstance(n, ast.Return) and any(pol and (cmp_atom(e) or ('',))[0] == 'eq' for e, pol, _ in eng.guards_at(ad, n))]
     ck.ob('R-C17-REPAIR', ad, ad.node, 'add() keeps one transfer per identity (an equal one is returned, not duplicated)', len(dup) == 1, '', construct='add dedups')
@@ -190,26 +194,37 @@ def run(eng: Engine, ck: Check):
     # ---- R-C17-WRITE
     w = eng.func(TCACHE, 'TransferShelveCache.write')
     ck.visited(w)
-    stores = [n for n in walk_local(w.node) if isinstance(n, ast.Assign) and isinstance(n.targets[0], ast.Subscript) and unparse(n.targets[0].value) == 'database']
+    def shelf_name(fn: FuncInfo) -> str:
+        for n_ in walk_local(fn.node):
+            if isinstance(n_, (ast.With, ast.AsyncWith)):
+                for it_ in n_.items:
+                    if it_.optional_vars is not None and isinstance(it_.optional_vars, ast.Name) and any(call_name(x_) == 'open' for x_ in ast.walk(it_.context_expr)):
+                        return it_.optional_vars.id
+        return 'database'
+    DB = shelf_name(w)
+    stores = [n for n in walk_local(w.node) if isinstance(n, ast.Assign) and isinstance(n.targets[0], ast.Subscript) and unparse(n.targets[0].value) == DB]
     ok = len(stores) == 1 and any(isinstance(a, ast.For) and unparse(a.iter) == w.params[1] for a in ancestors(stores[0])) and not eng.guards_at(w, stores[0])
     ck.ob('R-C17-WRITE', w, w.node, 'write() stores every current transfer', ok, '', construct='write stores all')
-    pops = [x for x in calls_in(w.node) if call_name(x) in ('pop',) and unparse(x.func.value) == 'database'] + \
-           [n for n in walk_local(w.node) if isinstance(n, ast.Delete) and 'database' in unparse(n)]
+    pops = [x for x in calls_in(w.node) if call_name(x) in ('pop',) and unparse(x.func.value) == DB] + \
+           [n for n in walk_local(w.node) if isinstance(n, ast.Delete) and mentions_name(n, DB)]
     stale = [x for x in calls_in(w.node) if call_name(x) == 'append' and any((not pol) and call_name(e) == 'any' for e, pol, _ in eng.guards_at(w, x))]
     ck.ob('R-C17-WRITE', w, w.node, 'write() deletes every stored record that equals no current transfer (removed transfers are gone)', bool(pops) and len(stale) == 1, '',
           construct='write drops stale')
     stop = eng.func('client.py', 'SoulSeekClient.stop')
     c = eng.cfg(stop)
     sd = [n for x in calls_in(stop.node) if call_name(x) == 'store_data' for n in c.nodes_for(x)]
-    ga = [n for x in calls_in(stop.node) if call_name(x) == 'gather' and 'cancelled_tasks' in unparse(x) for n in c.nodes_for(x)]
+    # the gather over the tasks returned by service.stop()
+    stop_lists = {x.func.value.id for x in calls_in(stop.node) if call_name(x) in ('extend', 'append') and isinstance(x.func.value, ast.Name) and
+                  any(call_name(y) == 'stop' for y in ast.walk(x))}
+    ga = [n for x in calls_in(stop.node) if call_name(x) == 'gather' and names_in(x) & stop_lists for n in c.nodes_for(x)]
     ok = bool(sd) and bool(ga) and all(ga[0] in c.dominators()[n] for n in sd)
     ck.ob('R-C17-WRITE', stop, stop.node, 'stop() writes the caches after the cancelled tasks were awaited (final states are persisted)', ok, '', construct='stop stores after gather')
     sdm = eng.func(TM, 'TransferManager.store_data')
     ck.ob('R-C17-WRITE', sdm, sdm.node, 'store_data writes the transfer cache', bool(calls_on(sdm.node, 'write_cache')), '', construct='store_data writes')
     wc = eng.func(TM, 'TransferManager.write_cache')
-    ck.ob('R-C17-WRITE', wc, wc.node, 'write_cache passes the full transfer list', 'self.cache.write(self._transfers)' in unparse(wc.node), '', construct='write_cache list')
+    ck.ob('R-C17-WRITE', wc, wc.node, 'write_cache passes the full transfer list', phas(wc.node, 'self.cache.write(self._transfers)'), '', construct='write_cache list')
     r = eng.func(TCACHE, 'TransferShelveCache.read')
-    ok = any(isinstance(n, ast.For) and 'database.items()' in unparse(n.iter) for n in walk_local(r.node)) and len(calls_on(r.node, 'append')) == 1 and \
+    ok = any(isinstance(n, ast.For) and unparse(n.iter) in (f'{shelf_name(r)}.items()', f'{shelf_name(r)}.values()') for n in walk_local(r.node)) and len(calls_on(r.node, 'append')) == 1 and \
         not eng.guards_at(r, calls_on(r.node, 'append')[0])
     ck.ob('R-C17-WRITE', r, r.node, 'read() returns every stored record', ok, '', construct='read all')
 
